@@ -482,6 +482,9 @@ def histories(tier):
         for use in [('lookup',), ('remove_hash', 1)]:
             if tier == 'quick' and use[0] == 'remove_hash' and mut[0] in ('sethash', 'add', 'remove_hash'): continue
             H.append([A, A, ('lookup',), mut, use])
+    # emptying a simulation whose active-particle count had been set, then refilling it
+    for n in (2, 3):
+        H.append([A] * n + [('set_n_active', 1), ('remove_all',)]); H.append([A] * n + [('set_n_active', n), ('remove_all',), A, A, ('remove', 0)])
     if tier != 'quick': H.append([A, A, A, ('lookup',), ('remove', 0), ('lookup',)])
     H.append([('lookup',)]); H.append([('remove', 1)]); H.append([('remove_hash', 1)]); H.append([('remove_all',), A, ('lookup',)])
     if tier == 'thorough':
